@@ -218,6 +218,15 @@ def u_ctl():
     add("ctl-subtuple", ["a: Qmatrix[bool, 2, 2]"], "bool", ["c = False", "for x in a:", "    for y in x:", "        c = c ^ y", "return c"])
     add("ctl-subtuple", ["a: Qmatrix[Qint[2], 2, 2]"], Q2, ["c = 0", "for x in a:", "    for y in x:", "        c += y", "return c"])
     add("ctl-subtuple", ["a: Qmatrix[bool, 2, 2]", "i: bool"], "bool", ["r = a[1] if i else a[0]", "return r[0]"])
+    # a name that held a constant is re-bound to a runtime value and then used as an index
+    L4 = "L = [3, 2, 1, 0]"
+    add("ctl-constidx", ["a: %s" % Q2], Q2, [L4, "i = 1", "return L[i]"])
+    add("ctl-constidx", ["a: %s" % Q2], Q2, [L4, "i = 1", "i = a", "return L[i]"])
+    add("ctl-constidx", ["a: %s" % Q2], Q2, [L4, "i = 0", "i += a", "return L[i]"])
+    add("ctl-constidx", ["a: %s" % Q2, "c: bool"], Q2, [L4, "i = 0", "if c:", "    i = 1", "return L[i]"])
+    add("ctl-constidx", ["x: Qlist[Qint[2], 4]", "a: %s" % Q2], Q2, ["s = 0", "for i in range(2):", "    s += x[i]", "i = a", "return s + x[i]"])
+    add("ctl-constidx", ["a: %s" % Q2, "c: bool"], Q2, [L4, "i = 2", "j = i", "if c:", "    j = a", "return L[j] + L[i]"])
+    add("ctl-constidx", ["x: Qlist[Qint[2], 3]", "c: bool"], Q2, ["i = 0", "r = x[i]", "i = 2 if c else 1", "return r + x[i]"])
     # a returned alias of an argument still needs its own output qubit
     add("ctl-alias", ["a: bool", "b: bool"], "bool", ["v = a", "return v"])
     add("ctl-alias", ["a: bool", "b: bool"], "bool", ["v = b", "w = v", "return w"])
